@@ -53,7 +53,7 @@ func init() {
 		},
 		Run:            c03Run,
 		Floor:          func(tier string) int { return 5000 },
-		Rule:           "12 operators x ordered shape pairs of rank 0..4 with extents {1,2,3} (sampled in quick; thorough enumerates all 121^2 pairs x 12 operators x {float32,float64,int32,int64} completely, logic operators on bool, then 10^6 sampled cases) x element types x value pools with NaN, +-Inf, +-0, subnormals, integer extremes and forced ties; executed through the operator API and (every 4th case) as a single-node model through Run; compared with the reference (broadcast index map + IEEE / wrap-around scalar semantics). Expectation classes: MUST_EQUAL for float32/float64/int32/int64 (bool for logic), MAY_REFUSE for other accepted types, MUST_ERROR for incompatible shapes, mixed operand types and logic on non-bool. Integer division by zero is outside the domain (skipped). Non-trivial = broadcasting stretches an operand, or shapes are incompatible, or special values/ties are present; distinct = (operator, dtype, shapeA, shapeB, value-class)." + ruleShared + ruleReused,
+		Rule:           "(every 512th case: sequences of shape pairs that coincide under weak memo keys - polynomial folds with bases 10..61, unseparated decimals) 12 operators x ordered shape pairs of rank 0..4 with extents {1,2,3} (sampled in quick; thorough enumerates all 121^2 pairs x 12 operators x {float32,float64,int32,int64} completely, logic operators on bool, then 10^6 sampled cases) x element types x value pools with NaN, +-Inf, +-0, subnormals, integer extremes and forced ties; executed through the operator API and (every 4th case) as a single-node model through Run; compared with the reference (broadcast index map + IEEE / wrap-around scalar semantics). Expectation classes: MUST_EQUAL for float32/float64/int32/int64 (bool for logic), MAY_REFUSE for other accepted types, MUST_ERROR for incompatible shapes, mixed operand types and logic on non-bool. Integer division by zero is outside the domain (skipped). Non-trivial = broadcasting stretches an operand, or shapes are incompatible, or special values/ties are present; distinct = (operator, dtype, shapeA, shapeB, value-class)." + ruleShared + ruleReused,
 		Exhaustive:     func(tier string) bool { return false },
 		RaceInThorough: true,
 		Technique:      "runtime monitoring: differential execution of the real operators (API and Run) against an independent reference model over generated and bounded-exhaustive shape/type/value spaces",
